@@ -170,6 +170,22 @@ Definition probe_fits (s : option (Z * origin)) (v t : Z) : bool :=
   | Some (dv, o) => Z.eqb v dv && (if (0 <? dv)%Z then Z.eqb t (origin_code o) else true)
   end.
 
+(** "If there is no domain setting also the global one is taken if the setting is marked global": for a setting of the
+    man page's KEYS section, what the filter that reads it gets (getsettingglobal()'s answer when the code reads it that
+    way, else getsetting()'s) must be the documented lookup with global = the man page's mark.
+    KEY_TABLE: (setting, the code reads it globally, the man page marks it global). *)
+Fixpoint key_lookup (k : bytes) (t : list (bytes * bool * bool)) : option (bool * bool) :=
+  match t with
+  | [] => None
+  | (k', cg, dg) :: r => if bytes_eqb k k' then Some (cg, dg) else key_lookup k r
+  end.
+
+Definition filter_view_fits (u d g : says) (key : bytes) (p1v p1t p2v p2t : Z) : bool :=
+  match key_lookup key KEY_TABLE with
+  | None => true
+  | Some (cg, dg) => probe_fits (doc_setting dg u d g) (if cg then p2v else p1v) (if cg then p2t else p1t)
+  end.
+
 Fixpoint nat_list_eqb (a b : list nat) : bool :=
   match a, b with
   | [], [] => true
@@ -196,6 +212,7 @@ Definition spec_ok_C12 (outcomes : bytes) (umode : N) (ufile : bytes) (dmode : N
                  && nat_list_eqb trace (firstn n RCPT_CBS)
                  && probe_fits (doc_setting false (level_says uc key) (level_says dc key) (level_says gc key)) p1v p1t
                  && probe_fits (doc_setting true (level_says uc key) (level_says dc key) (level_says gc key)) p2v p2t
+                 && filter_view_fits (level_says uc key) (level_says dc key) (level_says gc key) key p1v p1t p2v p2t
               then VOk else VBad
           end
       | _, _ => VPre
